@@ -132,7 +132,7 @@ def group_complaints(prop, complaints, info):
             toks = _race_tokens(subj, fn, kind, writers, readers)
             is_known = any(kt in t for kt in ktoks for t in toks)
             key = ("access", subj, "known" if is_known else "new")
-            g = groups.setdefault(key, {"class": "access", "field": subj, "members": [], "tokens": set()})
+            g = groups.setdefault(key, {"class": "access", "field": subj, "members": [], "tokens": set(), "is_known": is_known})
             g["members"].append((fn, kind, subj))
             g["tokens"] |= toks
         elif kind in PROTOCOL_CALLBACK:
@@ -263,7 +263,7 @@ def _short_fn(frame_fn):
     """github.com/hashicorp/eventlogger/filters/encrypt.(*Filter).Process.func1 -> encrypt.Filter.Process"""
     f = frame_fn.split("/")[-1]
     f = re.sub(r"\(\*?(\w+)\)", r"\1", f)
-    f = re.split(r"\.func\d|\.gowrap\d|\.\d", f)[0]
+    f = re.split(r"\.func\d|\.gowrap\d|\.deferwrap\d|\.\d", f)[0]
     return f
 
 
@@ -387,29 +387,41 @@ def run_race_scenarios(ctx, binp, scenarios, outdir, extra_args=(), jobs=6, time
         return list(ex.map(one, enumerate(scenarios)))
 
 
-def report_races(ctx, prop, reports, mine, explained_fields):
-    """one violation per distinct access pair among the reports that belong to this property"""
-    by_tok = {}
+def report_races(ctx, prop, reports, mine, static_broken):
+    """dynamic race reports that no static complaint stands for.  One violation per field (split where a known finding covers only
+    some of the access pairs); when the static obligation is broken as well they are folded into ONE additional violation, since they
+    are then most likely further symptoms of the same defect."""
+    engine = "stressh" if prop == "C19" else "conch"
+    known, _ = V.load_known()
+    ktoks = [k["match"] for k in known if k.get("property") == prop and k.get("match")]
+    groups = {}
     ignored = 0
     for r in reports:
-        if not r["library_frames"]:
+        if not r["library_frames"] or not mine(r["field"]):
             ignored += 1
             continue
-        if not mine(r["field"]):
-            ignored += 1
-            continue
-        by_tok.setdefault(r["token"], []).append(r)
-    for tok, rs in sorted(by_tok.items()):
-        r = rs[0]
-        if r["field"] in explained_fields:
-            continue            # already reported with the static complaint about that field (this report is its replay)
-        rp = V.write_replay(ctx, "race-" + re.sub(r"[^A-Za-z0-9]+", "_", tok)[:90], {
-            "kind": "correspondence", "engine": "stressh" if prop == "C19" else "conch", "theorem_or_correspondence": "race detector vs the generated access table",
-            "access_pair": tok, "reports_with_this_pair": len(rs), "case": r["scenario"], "race_report": r["text"], "library_frames": r["frames"],
-            "note": "this access pair is NOT predicted by the static obligation on this tree: either the translator's access extraction / Contracts.v is incomplete, or the race is on memory outside the tracked fields"
-                    if r["field"] not in explained_fields else "", "repro": "bin/check replay <this file>"})
-        ctx.violations.append({"match": tok, "replay": rp, "what": "data race (race detector): field %s, %s vs %s" % (r["field"], r["reader"], r["writer"])})
-    return by_tok, ignored
+        is_known = any(kt in r["token"] for kt in ktoks)
+        key = ("known", r["field"]) if is_known else (("folded",) if static_broken else ("field", r["field"]))
+        groups.setdefault(key, {}).setdefault(r["token"], []).append(r)
+    for key, toks in sorted(groups.items(), key=lambda kv: str(kv[0])):
+        first = toks[sorted(toks)[0]][0]
+        pairs = sorted(toks)
+        rec = {"kind": "correspondence", "engine": engine, "theorem_or_correspondence": "race detector vs the generated access table",
+               "access_pairs": pairs, "access_pair": pairs[0], "reports": sum(len(v) for v in toks.values()), "case": first["scenario"], "race_report": first["text"],
+               "library_frames": first["frames"], "repro": "bin/check replay <this file>"}
+        if key[0] == "folded":
+            rec["note"] = "reported in addition to the broken static obligation of this run: further race reports, most likely symptoms of the same defect"
+            what = "data races (race detector), %d further access pairs while the lock-discipline obligation is broken: %s" % (len(pairs), "; ".join(p[5:] for p in pairs[:4]))
+            match = "races-with-broken-discipline " + " ".join(pairs)
+        else:
+            if not all(r["in_access_table"] for v in toks.values() for r in v):
+                rec["note"] = ("this access pair is NOT predicted by the static obligation on this tree: the memory is outside the tracked fields "
+                               "(extern:<function that touched it>) or the translator's access extraction / Contracts.v is incomplete")
+            what = "data race (race detector) on %s: %s" % (key[1], "; ".join("%s vs %s" % tuple(p.split("|")[1:3]) for p in pairs[:4]))
+            match = " ".join(pairs)
+        rp = V.write_replay(ctx, "race-" + re.sub(r"[^A-Za-z0-9]+", "_", "_".join(key))[:90], rec)
+        ctx.violations.append({"match": match, "replay": rp, "what": what})
+    return groups, ignored
 
 
 # ---------------------------------------------------------------- C12
@@ -477,14 +489,14 @@ def check_C12(ctx):
     timeouts.sort(key=lambda r: (r["scenario"]["groups"], r["scenario"]["parked"], len(r["steps"]), r["scenario"]["id"]))
 
     def evidence(group):
-        if group["class"] == "callback-under-lock" and timeouts:
+        if group["class"] in ("callback-under-lock", "protocol") and timeouts:
             r = timeouts[0]
             return {"engine": "lockh", "case": r["scenario"], "failed_call": r["failed_op"], "steps": r["steps"],
                     "goroutine_dump": r["goroutine_dump"], "scenarios_timing_out": len(timeouts)}
         return None
     if st["dir"]:
         report_static(ctx, "C12", st, evidence)
-    explained = any(g["class"] == "callback-under-lock" for g in st["groups"])
+    explained = any(g["class"] in ("callback-under-lock", "protocol") for g in st["groups"])
     if timeouts and not explained:
         # the watchdog found a call that does not return although the obligation holds: report per failing call
         seen = set()
@@ -540,9 +552,16 @@ def _stress(ctx, part, info):
     for sc, rc, o in crashed:
         rp = V.write_replay(ctx, "stress-crash-" + sc["name"], {"kind": "correspondence", "engine": "stressh", "case": sc, "exit_code": rc, "output": o})
         ctx.violations.append({"match": "crash:" + sc["name"], "replay": rp, "what": "stress scenario %s crashed (exit %s)" % (sc["name"], rc)})
-    for sc, x in integrity[:5]:
-        rp = V.write_replay(ctx, "integrity-" + sc["name"], {"kind": "correspondence", "engine": "stressh", "case": sc, "observed_value": x})
-        ctx.violations.append({"match": "integrity:" + x.split(":")[0], "replay": rp, "what": "corrupted sink output: " + x})
+    seen_classes = set()
+    ctx._integrity = integrity
+    for sc, x in integrity:
+        cls = "concurrent-writes-on-a-sink's-writer" if "concurrent Write" in x else "sink-output-not-a-sequence-of-JSON-documents"
+        if cls in seen_classes:
+            continue
+        seen_classes.add(cls)
+        rp = V.write_replay(ctx, "integrity-" + cls, {"kind": "correspondence", "engine": "stressh", "case": sc, "observed_value": x,
+                                                       "scenarios_affected": sorted(set(s2["name"] for s2, y in integrity))})
+        ctx.violations.append({"match": "integrity:" + cls, "replay": rp, "what": "corrupted sink output (%d scenarios): %s" % (len(set(s2["name"] for s2, y in integrity)), x)})
     for sc, x in panics[:5]:
         rp = V.write_replay(ctx, "panic-" + sc["name"], {"kind": "correspondence", "engine": "stressh", "case": sc, "observed_value": x})
         ctx.violations.append({"match": "panic:" + x[:60], "replay": rp, "what": "panic under concurrent use: " + x})
@@ -553,10 +572,19 @@ def _stress(ctx, part, info):
     return reports
 
 
-def _race_evidence(reports, engine):
+def _race_evidence(reports, engine, info=None):
+    calls = (info or {}).get("calls", {})
+
     def evidence(group):
+        fns = set()
+        if group["class"] != "access":
+            # a protocol complaint (e.g. a helper called without the lock it requires): any race inside that helper or what it calls
+            for f, k, subj in group["members"]:
+                fns |= {subj} | set(calls.get(subj, []))
         for r in reports:
-            if r["token"] in group["tokens"] and r["library_frames"]:
+            if not r["library_frames"]:
+                continue
+            if r["token"] in group["tokens"] or (fns and (r["reader"] in fns or r["writer"] in fns)):
                 return {"engine": engine, "case": r["scenario"], "access_pair": r["token"], "race_report": r["text"], "library_frames": r["frames"]}
         return None
     return evidence
@@ -569,9 +597,18 @@ def check_C19(ctx):
     ctx.coverage["parts"]["stock-node-stress(-race)"] = part
     reports = _stress(ctx, part, st["info"]) or []
     if st["dir"]:
-        report_static(ctx, "C19", st, _race_evidence(reports, "stressh"))
+        race_ev = _race_evidence(reports, "stressh", st["info"])
+
+        def evidence(group):
+            ev = race_ev(group)
+            if ev is None and group.get("field", "").endswith("*") and getattr(ctx, "_integrity", None):
+                sc, x = ctx._integrity[0]       # the stream pseudo field: interleaved writes observed by the harness writer
+                ev = {"engine": "stressh", "case": sc, "observed_value": x}
+            return ev
+        report_static(ctx, "C19", st, evidence)
     explained = set(t for g in st["groups"] for t in g["tokens"])
-    by_tok, ignored = report_races(ctx, "C19", [r for r in reports if r["token"] not in explained], lambda f: not is_broker_field(f), set())
+    broken = any(not g.get("is_known") for g in st["groups"])
+    by_tok, ignored = report_races(ctx, "C19", [r for r in reports if r["token"] not in explained], lambda f: not is_broker_field(f), broken)
     part["race_pairs_seen"] = sorted(set(r["token"] for r in reports))
     part["race_reports_on_fields_of_other_properties_ignored"] = ignored
     ctx.assumptions += ASSUME_COMMON + [
@@ -676,8 +713,8 @@ def _conch_cases(ctx, part):
         rp = V.write_replay(ctx, "conch-" + kind, {
             "kind": "correspondence", "engine": "conch", "theorem_or_correspondence": "Run_Conc.mismatches (delivery bounds of ConcProofs.send_delivery_bounds / linearizability against Broker.step)",
             "signature": kind, "meaning": CKIND_TEXT.get(kind, kind), "send_index": step, "case": cases[cid], "observed_case_literal": lits.get(cid),
-            "cases_with_this_kind": sum(1 for m in mism if m[3] == kind), "repro": "bin/check replay <this file>"})
-        ctx.violations.append({"match": "conc:" + kind, "replay": rp, "what": "C04: %s (case %d, %d cases affected)" % (CKIND_TEXT.get(kind, kind), cid, sum(1 for m in mism if m[3] == kind))})
+            "cases_with_this_kind": len(set(m[0] for m in mism if m[3] == kind)), "repro": "bin/check replay <this file>"})
+        ctx.violations.append({"match": "conc:" + kind, "replay": rp, "what": "C04: %s (case %d, %d cases affected)" % (CKIND_TEXT.get(kind, kind), cid, len(set(m[0] for m in mism if m[3] == kind)))})
     ctx.coverage["evaluations"] += summ["cases"]
     ctx.coverage["distinct_nontrivial"] += summ["distinct_nontrivial"]
     ctx.coverage["traces_validated_against_impl"] = ctx.coverage.get("traces_validated_against_impl", 0) + summ["cases"]
@@ -743,9 +780,10 @@ def check_C04(ctx):
     ctx.coverage["parts"]["concurrent-histories(-race)"] = rpart
     reports = _conch_race(ctx, rpart, st["info"])
     if st["dir"]:
-        report_static(ctx, "C04", st, _race_evidence(reports, "conch"))
+        report_static(ctx, "C04", st, _race_evidence(reports, "conch", st["info"]))
     explained = set(t for g in st["groups"] for t in g["tokens"])
-    by_tok, ignored = report_races(ctx, "C04", [r for r in reports if r["token"] not in explained], is_broker_field, set())
+    broken = any(not g.get("is_known") for g in st["groups"])
+    by_tok, ignored = report_races(ctx, "C04", [r for r in reports if r["token"] not in explained], is_broker_field, broken)
     rpart["race_reports_on_fields_of_other_properties_ignored"] = ignored
     ctx.assumptions += ASSUME_COMMON + [
         "sync.Map contract: Store / Delete / Load linearizable per key; Range visits no key twice and for each key reflects its mapping at some instant during the call",
